@@ -84,6 +84,16 @@ func NewMemServer(name, role string) *Server {
 	return s
 }
 
+// UseKind makes the server hold, for k's key type, the key of k's own ring (boundary kinds share a key type with
+// a standard kind but come from another ring).
+func (s *Server) UseKind(k keys.Kind) *Server {
+	if s.Mem != nil && k.IsBoundary() {
+		key := keys.Get(k.Alg, s.Role)
+		s.Mem.AddKey(k.Type, k.Bits, key, []*x509.Certificate{keys.SelfSigned(k.Alg+"-"+s.Role, key)})
+	}
+	return s
+}
+
 // NewServer wires the real responders and HTTP handler over a state backend.
 func NewServer(name, role string, st State, mods serviceinfo.ModuleStateMachine) *Server {
 	s := &Server{Name: name, Role: role, State: st, RvInfo: [][]protocol.RvInstruction{}}
@@ -358,12 +368,12 @@ func (d *Device) TO1(ctx context.Context, tr fdo.Transport) (*cose.Sign1[protoco
 
 // DefaultSuite returns a key exchange suite valid for the kind.
 func DefaultSuite(k keys.Kind) kex.Suite {
-	switch k.Alg {
-	case "ec256":
+	switch {
+	case k.Type == protocol.Secp256r1KeyType:
 		return kex.ECDH256Suite
-	case "ec384":
+	case k.Type == protocol.Secp384r1KeyType:
 		return kex.ECDH384Suite
-	case "rsa2048":
+	case k.Alg == "rsa2048":
 		return kex.ASYMKEX2048Suite
 	default:
 		return kex.DHKEXid15Suite
